@@ -124,7 +124,7 @@ fn layout_sweep(sh: &util::Shard, quick: bool) -> Report {
                             }
                         }
                     }
-                    if idx % 401 == 0 {
+                    if rep.evaluations % 97 == 1 {
                         rep.sample(json!({"layout": what, "expected_dir": want.map(|i| DIRS[i])}));
                     }
                 }
@@ -197,6 +197,7 @@ fn special_sweep(rep: &mut Report) {
         let stderr = String::from_utf8_lossy(&o.stderr).to_string();
         rep.outcome("special");
         rep.distinct(&s.what);
+        rep.sample(json!({"special_case": s.what, "main": s.main, "exit": o.code}));
         if o.signal.is_some() || !matches!(o.code, Some(0 | 1)) || stderr.contains("panicked at") {
             rep.violation("C13/crash", format!("{}: {}", s.what, describe(&o)), case);
             continue;
